@@ -73,6 +73,11 @@ EDGES = {
     "default_param_arg_phantom": "pub struct R§ { pub f: Option<GP§<E§>>, pub n: i32 }",
     # a parameter that is made concrete AND has a default: the default is not part of the declaration
     "concrete_with_default": '#[ts(concrete(T = D§))] pub struct R§<T = E§> { pub f: T, pub n: i32 }',
+    # type overrides on unnamed fields: the Rust type of the field is not a dependency
+    "type_override_tuple": 'pub struct R§(#[ts(type = "string")] pub D§, pub i32, pub E§);',
+    "type_override_tuple_variant": 'pub enum R§ { A(#[ts(type = "string")] D§, i32), B(#[ts(type = "number")] D§), C { #[ts(type = "boolean")] d: D§, e: E§ } }',
+    # two types of one file whose dependencies live in files whose specifiers differ only in the leading ./ and ../
+    "same_tail_specifiers": "pub struct R§ { pub a: SA§, pub b: SB§ }",
 }
 
 # What each root refers to, read off its source above the way the documentation describes dependencies:
@@ -127,12 +132,17 @@ EDGE_DEPS = {
     "default_param_arg_inline": (["GD", "D"], []),
     "default_param_arg_phantom": (["GP", "E"], []),
     "concrete_with_default": (["D"], []),
+    "type_override_tuple": (["E"], []),
+    "type_override_tuple_variant": (["E"], []),
+    "same_tail_specifiers": (["SA", "SB"], []),
 }
 HELPER_DEPS = {"D": ([], []), "E": ([], []), "G": ([], []), "M": (["D", "E"], []), "C": (["R", "D"], []), "S1": (["D"], []),
                "S2": (["E", "S1"], []), "FE": (["D", "E"], []), "LA": ([], []), "LB": ([], []), "UA": (["LA"], []), "UB": (["LB"], []),
-               "UC": (["LA", "LB"], []), "GD": ([], ["G"]), "GP": ([], [])}
+               "UC": (["LA", "LB"], []), "GD": ([], ["G"]), "GP": ([], []),
+               "SA": (["DN"], []), "SB": (["DF"], []), "DN": ([], []), "DF": ([], [])}
 # export_to of the helper items that have one
-HELPER_PLACES = {"S1": "pair§.ts", "S2": "pair§.ts", "LA": "leaves§.ts", "LB": "leaves§.ts", "UA": "users§.ts", "UB": "users§.ts", "UC": "users§.ts"}
+HELPER_PLACES = {"S1": "pair§.ts", "S2": "pair§.ts", "LA": "leaves§.ts", "LB": "leaves§.ts", "UA": "users§.ts", "UB": "users§.ts", "UC": "users§.ts",
+                 "SA": "tail§/shared§.ts", "SB": "tail§/shared§.ts", "DN": "tail§/dep§.ts", "DF": "dep§.ts"}
 DPLACES = {"default": "", "dir": '#[ts(export_to = "sub/")]', "file": '#[ts(export_to = "custom/file§.ts")]', "nested": '#[ts(export_to = "a/b/")]',
            "escape": '#[ts(export_to = "../esc§/D§.ts")]', "dotted": '#[ts(export_to = "x.y/d.ts/")]', "same_as_root": '#[ts(export_to = "both§.ts")]',
            "same_dotdot": '#[ts(export_to = "sub§/../both§.ts")]',
@@ -165,6 +175,10 @@ def case_unit(n, case):
         '#[derive(TS)] #[ts(export_to = "pair§.ts")] pub struct S1§ { pub d: D§ }',
         '#[derive(TS)] #[ts(export_to = "pair§.ts")] pub struct S2§ { pub e: E§, pub s: Option<Box<S1§>> }',
         '#[derive(TS)] #[ts(tag = "k")] pub enum FE§ { A { d: D§ }, B { e: E§ } }',
+        '#[derive(TS)] #[ts(export_to = "tail§/dep§.ts")] pub struct DN§ { pub n: i32 }',
+        '#[derive(TS)] #[ts(export_to = "dep§.ts")] pub struct DF§ { pub f: i32 }',
+        '#[derive(TS)] #[ts(export_to = "tail§/shared§.ts")] pub struct SA§ { pub n: DN§ }',
+        '#[derive(TS)] #[ts(export_to = "tail§/shared§.ts")] pub struct SB§ { pub f: Option<DF§> }',
         "#[derive(TS)] pub struct GD§<T = i32> { #[ts(inline)] pub g: G§<T>, pub n: i32 }",
         "#[derive(TS)] pub struct GP§<T = i32> { #[ts(skip)] pub p: std::marker::PhantomData<T>, pub n: i32 }",
         '#[derive(TS)] #[ts(export_to = "leaves§.ts")] pub struct LA§ { pub v: i32 }',
